@@ -437,6 +437,9 @@ func families(tier string) []fw.Family {
 		family("nested rectangles, 3 levels, all orientations", nestings(3), 1, 1e-8, 1e-6, false),
 		family("nested rectangles, 4 levels, all orientations", nestings(4), 1, 1e-8, 1e-6, false),
 		family("quad(L3)/rot, coarse grid eps=0.25 on x4 lattice", single(oracle.ContoursModRotation(L3, 4)), 4, 0.25, 0.5, false),
+		family("closed walks of 4 steps revisiting a vertex (L4)", single(oracle.WalksModRotation(L4, 4)), 1, 1e-8, 1e-6, false),
+		family("closed walks of 5 steps revisiting a vertex (L3)", single(oracle.WalksModRotation(L3, 5)), 1, 1e-8, 1e-6, false),
+		family("closed walks of 6 steps revisiting a vertex (L3)", single(oracle.WalksModRotation(L3, 6)), 1, 1e-8, 1e-6, false),
 		family("open quad(L3)/rot (open subpaths, implicitly closed)", single(oracle.ContoursModRotation(L3, 4)), 1, 1e-8, 1e-6, true),
 	}
 	if tier == "thorough" {
